@@ -260,7 +260,7 @@ class XMLReader(object):
                               warnings attribute after parsing is done.
         :param filename: Path to an odml file.
         """
-        self.parser = ET.XMLParser(remove_comments=True)
+        self.parser = ET.XMLParser(remove_comments=True, remove_pis=True)
         self.tags = dict([(obj.name, obj) for obj in ofmt.__all__])
         self.ignore_errors = ignore_errors
         self.show_warnings = show_warnings
@@ -346,7 +346,8 @@ class XMLReader(object):
                 # lxml refuses str input that carries an encoding declaration. The
                 # declaration of an already decoded text is void, so parse the UTF-8
                 # bytes of the text with the encoding fixed to UTF-8.
-                parser = ET.XMLParser(remove_comments=True, encoding="utf-8")
+                parser = ET.XMLParser(remove_comments=True, remove_pis=True,
+                                      encoding="utf-8")
                 root = ET.XML(string.encode("utf-8"), parser)
             else:
                 root = ET.XML(string, self.parser)
